@@ -44,7 +44,9 @@ class SDE(torch.nn.Module):
         if self.noise_type == 'diagonal':
             return 0.3 + 0.2 * torch.cos(y)
         if self.noise_type == 'additive':
-            return (0.2 + 0.1 * torch.sin(t)).expand(y.shape[0], self.d, 2) * torch.ones(y.shape[0], self.d, 2)
+            # independent of the state, but with a per-sample scale (rows of the batch need not share one matrix)
+            scale = (1.0 + 0.5 * torch.arange(y.shape[0], dtype=y.dtype)).view(-1, 1, 1)
+            return (0.2 + 0.1 * torch.sin(t)) * scale * torch.ones(y.shape[0], self.d, 2, dtype=y.dtype)
         if self.noise_type == 'scalar':
             return (0.3 + 0.2 * torch.cos(y)).unsqueeze(-1)
         return torch.stack([0.3 + 0.2 * torch.cos(y), 0.1 * y], dim=-1)
@@ -166,6 +168,7 @@ def c04(args):
             stack += [nd._left_child, nd._right_child]
         if n < 60:
             bad.append((levy, 'tree unexpectedly shallow', n))
+    _chen_A_check(bad, 'levy area of multi-node queries')
     return {'reproduced': bool(bad), 'detail': [str(b) for b in bad[:5]]}
 
 
@@ -281,6 +284,41 @@ def c09(args):
     return {'reproduced': bool(bad), 'detail': {'bad': [str(b) for b in bad[:8]], 'all': [str(x) for x in seen]}}
 
 
+def c09iso(args):
+    """Parameters outside adjoint_params must not receive gradients (the failing call site is named by the arguments)."""
+    import warnings
+    method, am = args.get('method', 'reversible_heun'), args.get('adjoint_method', 'adjoint_reversible_heun')
+
+    class S(torch.nn.Module):
+        noise_type, sde_type = 'diagonal', 'stratonovich'
+
+        def __init__(self):
+            super().__init__()
+            self.a = torch.nn.Parameter(torch.tensor(0.3, dtype=torch.float64))
+            self.b = torch.nn.Parameter(torch.tensor(0.5, dtype=torch.float64))
+
+        def f(self, t, y):
+            return -self.a * y
+
+        def g(self, t, y):
+            return self.b * torch.cos(y)
+    bad = []
+    for label in ('()', '(a,)'):
+        sde = S()
+        y0 = torch.full((2, 2), 0.5, dtype=torch.float64, requires_grad=True)
+        bm = torchsde.BrownianInterval(0., 1., size=(2, 2), entropy=1, dtype=torch.float64)
+        with warnings.catch_warnings():
+            warnings.simplefilter('ignore')
+            ys = torchsde.sdeint_adjoint(sde, y0, torch.tensor([0., 0.5, 1.0], dtype=torch.float64), bm=bm, method=method, adjoint_method=am, dt=2 ** -4,
+                                         adjoint_params=() if label == '()' else (sde.a,))
+            (ys[-1] ** 2).sum().backward()
+        for nm, p_ in (('a', sde.a), ('b', sde.b)):
+            asked = label == '(a,)' and nm == 'a'
+            if not asked and p_.grad is not None and p_.grad.abs().item() > 0:
+                bad.append((method, 'adjoint_params=' + label, f'{nm}.grad = {p_.grad.item():.4f} although {nm} was not asked for'))
+    return {'reproduced': bool(bad), 'detail': [str(b) for b in bad]}
+
+
 def c10(args):
     bad = []
     for noise in ('diagonal', 'additive', 'scalar', 'general'):
@@ -346,6 +384,22 @@ def _bm_configs():
     return out
 
 
+def _chen_A_check(bad, label):
+    """Levy area of a query assembled from several stored pieces is the Chen combination of the pieces, per batch element."""
+    for levy in ('davie', 'foster'):
+        bm = torchsde.BrownianInterval(0., 1., size=(3, 2), entropy=9, levy_area_approximation=levy, dtype=torch.float64)
+        pts = [0.0, 0.25, 0.5, 0.75, 1.0]
+        parts = [bm(a, b, return_A=True) for a, b in zip(pts[:-1], pts[1:])]
+        for k in (2, 3):        # [0, 1] itself is one stored node (the root), whose area is its own approximation, not a combination
+            W, A = bm(pts[0], pts[k], return_A=True)
+            Wacc, Aacc = parts[0][0].clone(), parts[0][1].clone()
+            for (Wi, Ai) in parts[1:k]:
+                Aacc = Aacc + Ai + 0.5 * (Wacc.unsqueeze(-1) * Wi.unsqueeze(-2) - Wi.unsqueeze(-1) * Wacc.unsqueeze(-2))
+                Wacc = Wacc + Wi
+            if (W - Wacc).abs().max().item() > 1e-9 or (A - Aacc).abs().max().item() > 1e-9:
+                bad.append((label, levy, f'{k}-node query', 'A differs from Chen combination of its parts by', (A - Aacc).abs().max().item()))
+
+
 def c03(args):
     """Chen / additivity / repeated-query consistency after solver-shaped and random histories."""
     import random
@@ -397,6 +451,7 @@ def c03(args):
                     bad.append(('additivity over one-grid-step pieces', kw, s_, u_, t_, (Wst - Wsu - Wut).abs().max().item()))
                 if (Ust - Usu - Uut - (t_ - u_) * Wsu).abs().max().item() > 1e-9:
                     bad.append(('chen-U over one-grid-step pieces', kw, s_, u_, t_))
+    _chen_A_check(bad, 'chen-A')
     return {'reproduced': bool(bad), 'detail': [str(b) for b in bad[:6]]}
 
 
@@ -453,35 +508,39 @@ def _sdeint_cfg(st, noise, d=2, B=2):
 
 
 def c15(args):
-    """Forward reversible Heun, then the negated time-reversed SDE with ReverseBrownian and negated extras (incl. a clipped last step)."""
+    """Forward reversible Heun, then the negated time-reversed SDE with ReverseBrownian and negated extras (incl. a clipped last step);
+    also with a forward run on negative times that is itself driven by a ReverseBrownian (double reversal)."""
     bad = []
     for noise in ('diagonal', 'scalar', 'additive', 'general'):
         for span in (1.0, 1.0625):
-            sde, m, y0 = _sdeint_cfg('stratonovich', noise)
-            ts = torch.tensor([0., 0.5, span])
-            bm = torchsde.BrownianInterval(0., span, size=(2, m), entropy=3, dtype=torch.float64)
-            ys, (f, g, z) = torchsde.sdeint(sde, y0, ts, bm=bm, method='reversible_heun', dt=0.125, extra=True)
+            for nested in (False, True):
+                sde, m, y0 = _sdeint_cfg('stratonovich', noise)
+                T0 = -span if nested else 0.0
+                ts = torch.tensor([T0, T0 + 0.5, T0 + span])
+                base = torchsde.BrownianInterval(0., span, size=(2, m), entropy=3, dtype=torch.float64)
+                bm = torchsde.ReverseBrownian(base) if nested else base
+                ys, (f, g, z) = torchsde.sdeint(sde, y0, ts, bm=bm, method='reversible_heun', dt=0.125, extra=True)
 
-            class Minus(torch.nn.Module):
-                noise_type, sde_type = sde.noise_type, sde.sde_type
+                class Minus(torch.nn.Module):
+                    noise_type, sde_type = sde.noise_type, sde.sde_type
 
-                def f(self, t, y):
-                    return -sde.f(-t, y)
+                    def f(self, t, y):
+                        return -sde.f(-t, y)
 
-                def g(self, t, y):
-                    return -sde.g(-t, y)
-            # reverse on the same grid: step by step so that the grids coincide
-            grid = [0.]
-            while grid[-1] < span:
-                grid.append(min(grid[-1] + 0.125, span))
-            yb, extra = ys[-1], (-f, -g, z)
-            for k in range(len(grid) - 1, 0, -1):
-                out, extra = torchsde.sdeint(Minus(), yb, torch.tensor([-grid[k], -grid[k - 1]]), bm=torchsde.ReverseBrownian(bm),
-                                             method='reversible_heun', dt=1.0, extra=True, extra_solver_state=extra)
-                yb = out[-1]
-            err = (yb - y0).abs().max().item()
-            if err > 1e-9:
-                bad.append((noise, span, err))
+                    def g(self, t, y):
+                        return -sde.g(-t, y)
+                # reverse on the same grid: step by step so that the grids coincide
+                grid = [T0]
+                while grid[-1] < T0 + span:
+                    grid.append(min(grid[-1] + 0.125, T0 + span))
+                yb, extra = ys[-1], (-f, -g, z)
+                for k in range(len(grid) - 1, 0, -1):
+                    out, extra = torchsde.sdeint(Minus(), yb, torch.tensor([-grid[k], -grid[k - 1]]), bm=torchsde.ReverseBrownian(bm),
+                                                 method='reversible_heun', dt=1.0, extra=True, extra_solver_state=extra)
+                    yb = out[-1]
+                err = (yb - y0).abs().max().item()
+                if err > 1e-9:
+                    bad.append((noise, span, 'forward run driven by a ReverseBrownian' if nested else 'plain', err))
     return {'reproduced': bool(bad), 'detail': bad[:6]}
 
 
@@ -537,6 +596,7 @@ def c20(args):
                 if torch.allclose(resid[i], resid[j], atol=1e-12) and resid[i].abs().max() > 0:
                     bad.append(('levy noise shared between batch entries', size, i, j))
                     break
+    _chen_A_check(bad, 'levy area of a multi-node query mixes or drops per-row cross terms')
     return {'reproduced': bool(bad), 'detail': [str(b) for b in bad[:6]]}
 
 
@@ -620,6 +680,25 @@ def c18(args):
                 bad.append((noise, method, 'state disturbed', (ys0 - ys1).abs().max().item()))
             if tuple(lq.shape) != (len(ts) - 1, 2) or (lq < 0).any():
                 bad.append((noise, method, 'shape/sign', tuple(lq.shape)))
+    # small but full-column-rank diffusion with one noise channel: the exact value must not depend on the scale of g
+    for noise in ('scalar', 'additive', 'general'):
+        for scale in (1.0, 1e-2, 1e-4):
+            class Small(torch.nn.Module):
+                noise_type, sde_type = noise, 'ito'
+
+                def f(self, t, y):
+                    return -y
+
+                def g(self, t, y):
+                    return (scale * torch.tensor([[1.0], [2.0]], dtype=torch.float64)).expand(y.shape[0], 2, 1)
+
+                def h(self, t, y):
+                    return self.f(t, y) - (self.g(t, y) @ torch.tensor([0.5], dtype=torch.float64))
+            ts = torch.tensor([0., 0.25, 0.75, 1.0], dtype=torch.float64)
+            _, lq = torchsde.sdeint(Small(), torch.full((2, 2), 0.5, dtype=torch.float64), ts, method='euler', dt=0.125, logqp=True)
+            want = 0.5 * 0.25 * (ts[1:] - ts[:-1])
+            if (lq - want.unsqueeze(1)).abs().max().item() > 1e-8:
+                bad.append((noise, 'm=1, |g| scale', scale, 'exact case', lq[:, 0].tolist(), want.tolist()))
     return {'reproduced': bool(bad), 'detail': [str(b) for b in bad[:6]]}
 
 
@@ -756,8 +835,12 @@ def c19(args):
     mb = (d + 1 if noise == 'diagonal' else m) if logqp else m
     bm = None if levy in (None, 'None') else torchsde.BrownianInterval(0., 1., size=(2, mb), levy_area_approximation=levy)
     try:
-        torchsde.sdeint(S(), torch.ones(2, d), torch.tensor([0., 1.]), bm=bm, method=None if method in (None, 'None') else method,
-                        dt=0.5, adaptive=adaptive, logqp=logqp)
+        if args.get('entry') == 'sdeint_adjoint':
+            torchsde.sdeint_adjoint(S(), torch.ones(2, d), torch.tensor([0., 1.]), bm=bm, method=None if method in (None, 'None') else method,
+                                    dt=0.5, adaptive=adaptive, logqp=logqp, adjoint_params=())
+        else:
+            torchsde.sdeint(S(), torch.ones(2, d), torch.tensor([0., 1.]), bm=bm, method=None if method in (None, 'None') else method,
+                            dt=0.5, adaptive=adaptive, logqp=logqp)
         outcome = 'integrated'
     except Exception as e:
         outcome = type(e).__name__
@@ -843,6 +926,31 @@ def c01(args):
         if slope < adv - 0.3:
             bad.append((method, st, 'advertised', adv, 'empirical', round(slope, 3)))
     return {'reproduced': bool(bad), 'detail': {'slower than advertised': [str(b) for b in bad], 'all': [str(x) for x in seen]}}
+
+
+def c19grad(args):
+    """A tolerance / step / time argument that requires grad must be refused with ValueError by the named entry point."""
+    entry, which = args.get('entry', 'sdeint'), args.get('which', 'dt')
+    sde = SDE('diagonal', 'ito', 2)
+    kw = dict(dt=0.25, rtol=1e-3, atol=1e-3, dt_min=1e-5)
+    ts = torch.tensor([0., 0.5, 1.])
+    if which == 'ts':
+        ts = ts.clone().requires_grad_()
+    else:
+        if which.startswith('adjoint_'):
+            kw[which] = torch.tensor(1e-3, requires_grad=True)
+        else:
+            kw[which] = torch.tensor(kw[which], requires_grad=True)
+    y0 = torch.full((2, 2), 0.5)
+    try:
+        if entry == 'sdeint_adjoint':
+            torchsde.sdeint_adjoint(sde, y0, ts, method='euler', **kw)
+        else:
+            torchsde.sdeint(sde, y0, ts, method='euler', **kw)
+        outcome = 'integrated'
+    except Exception as e:
+        outcome = type(e).__name__
+    return {'reproduced': outcome != 'ValueError', 'detail': {'entry': entry, 'argument requiring grad': which, 'outcome': outcome}}
 
 
 def c16rename(args):
@@ -940,7 +1048,7 @@ def c16(args):
     return {'reproduced': bool(bad), 'detail': [str(b) for b in bad[:6]]}
 
 
-RECIPES = {'c11': c11, 'c04': c04, 'c09': c09, 'c01': c01, 'c16rename': c16rename, 'c19adj': c19adj, 'c15': c15, 'c17': c17, 'c20': c20, 'c08': c08, 'c18': c18, 'c14': c14, 'c07': c07, 'c19': c19, 'c16': c16, 'c10': c10, 'c03': c03, 'c06': c06, 'history': history, 'linear_interp': linear_interp, 'c12': c12, 'c13': c13}
+RECIPES = {'c19grad': c19grad, 'c09iso': c09iso, 'c11': c11, 'c04': c04, 'c09': c09, 'c01': c01, 'c16rename': c16rename, 'c19adj': c19adj, 'c15': c15, 'c17': c17, 'c20': c20, 'c08': c08, 'c18': c18, 'c14': c14, 'c07': c07, 'c19': c19, 'c16': c16, 'c10': c10, 'c03': c03, 'c06': c06, 'history': history, 'linear_interp': linear_interp, 'c12': c12, 'c13': c13}
 
 if __name__ == '__main__':
     name = sys.argv[1]
